@@ -110,6 +110,9 @@ fn host_of(shape: &str, c: &RuleCtx) -> Option<String> {
         "trailingdot" => format!("{}.", c.reg.join(".")),
         "upper" => c.reg.join(".").to_uppercase(),
         "uppersuffix" => c.suffix.join(".").to_uppercase(),
+        // the Unicode spelling of an IDN suffix / registrable name (Android hosts are not normalised by `url`)
+        "unicodesuffix" => idna::domain_to_unicode(&c.suffix.join(".")).0,
+        "unicodereg" => idna::domain_to_unicode(&c.reg.join(".")).0,
         _ => return None,
     })
 }
@@ -292,6 +295,8 @@ pub fn drive(args: &Args) {
         ("web", "suffix", "absent"),     // the origin host is itself a public suffix
         ("android", "uppersuffix", "absent"),
         ("android", "reg", "suffix"),
+        ("android", "unicodesuffix", "absent"),
+        ("android", "unicodereg", "absent"),
     ];
     for (kind, r) in &all_default {
         let ctx = ctx_of(*kind, r, &mut rng);
